@@ -178,6 +178,10 @@ func toCtyList(val reflect.Value, ety cty.Type, path cty.Path) (cty.Value, error
 		// for future appending to the path.
 		path = path[:len(path)-1]
 
+		if !cty.CanListVal(vals) {
+			// (possible only when the element type is dynamic)
+			return cty.NilVal, path.NewErrorf("all list elements must have the same type")
+		}
 		return cty.ListVal(vals), nil
 
 	default:
@@ -228,6 +232,10 @@ func toCtyMap(val reflect.Value, ety cty.Type, path cty.Path) (cty.Value, error)
 		// for future appending to the path.
 		path = path[:len(path)-1]
 
+		if !cty.CanMapVal(vals) {
+			// (possible only when the element type is dynamic)
+			return cty.NilVal, path.NewErrorf("all map elements must have the same type")
+		}
 		return cty.MapVal(vals), nil
 
 	default:
@@ -291,6 +299,10 @@ func toCtySet(val reflect.Value, ety cty.Type, path cty.Path) (cty.Value, error)
 
 	}
 
+	if !cty.CanSetVal(vals) {
+		// (possible only when the element type is dynamic)
+		return cty.NilVal, path.NewErrorf("all set elements must have the same type")
+	}
 	return cty.SetVal(vals), nil
 }
 
